@@ -746,7 +746,7 @@ class GaussianState(State):
         positive_eigenvalues = eigenvalues[eigenvalues >= 0]
 
         F_0 = np.prod(
-            [w + np.sqrt(w**2 - 1) for w in positive_eigenvalues]
+            positive_eigenvalues + np.sqrt(positive_eigenvalues**2 - 1)
         ) / np.sqrt(np.linalg.det(sigma_mean))
 
         mu_1 = self.xpxp_mean_vector / np.sqrt(hbar)
